@@ -241,6 +241,21 @@ func C10_MultiBatch() {
 	}
 	gen(0, 8192)
 	vAssert(n == 16383, "multibatch:count")
+	if vChoice("abort", 2) == 1 {
+		// the import is given up after the first database batch has been written: nothing may be
+		// visible, and the same database can be imported into again
+		imp.Close()
+		t3 := NewMutableTree(db, 0, true, NewNopLogger())
+		lv, err := t3.Load()
+		vAssert(err == nil && lv == 0, "F26:aborted-multi-batch-import-leaves-nodes-behind")
+		imp2, err := t3.Import(1)
+		vAssert(err == nil, "F26:aborted-multi-batch-import-leaves-nodes-behind")
+		if imp2 != nil {
+			imp2.Close()
+		}
+		vCover("multibatch-aborted")
+		return
+	}
 	vAssert(imp.Commit() == nil, "multibatch:commit")
 	imp.Close()
 	t2 := NewMutableTree(db, 0, true, NewNopLogger())
